@@ -260,10 +260,12 @@ def check_keygen(case):
     stub = rng.ScriptedSecrets(script)
     saved = bits.keys.secrets
     bits.keys.secrets = stub
+    rng.sync(bits.keys.secrets)
     try:
         k = attempt(bits.keys.key)
     finally:
         bits.keys.secrets = saved
+        rng.sync(bits.keys.secrets)
     f = Fails()
     # classify by what the random source actually returned for the first draw (relative to the bound requested)
     if stub.calls:
